@@ -254,7 +254,16 @@ class PureEval:
             base = self.ev(node.value, env)
             if node.attr in ("real", "imag") and isinstance(base, (complex, float, int)):
                 return getattr(base, node.attr)
+            if isinstance(base, dict) and node.attr in base:
+                return base[node.attr]
             raise FevalError(f"attribute {node.attr}")
+        if isinstance(node, ast.Subscript):
+            base = self.ev(node.value, env)
+            if isinstance(node.slice, ast.Slice):
+                lo = self.ev(node.slice.lower, env) if node.slice.lower is not None else None
+                hi = self.ev(node.slice.upper, env) if node.slice.upper is not None else None
+                return base[lo:hi]
+            return base[self.ev(node.slice, env)]
         if isinstance(node, ast.Constant):
             return node.value
         if isinstance(node, ast.Tuple):
